@@ -142,14 +142,25 @@ def extra_mismatches(ctx, pid):
     if pid == 'C18':
         for m in ex['regimes']['mismatches']:
             out.append((dict(m, kind='crate-regime'), True))
-    if pid in ('C09', 'C10', 'C16'):
+    if pid in ('C09', 'C10', 'C11', 'C16'):
         for name in ex.get('release_verdicts', {}).get('accepted_in_release', []):
             d = ctx.by_name[name]
-            if (d['kind'] == 'enum') == (pid == 'C10') or pid == 'C16':
+            if pid == 'C11' and (d['kind'] != 'bitfield' or d['base'] in D.NATIVE):
+                continue
+            if (d['kind'] == 'enum') == (pid == 'C10') or pid in ('C16', 'C11'):
                 out.append(({'decl': name, 'kind': 'release-verdict',
                              'what': 'rejected when the proc-macro is built with overflow checks (dev) but accepted when it is built '
                                      'without them (cargo build --release): the verdict depends on the build profile',
                              'rustc_dev': ctx.verdicts['rejected'].get(name, [])[:2]}, True))
+    if pid == 'C11':
+        # a declaration over an arbitrary-int base that does not fit it (fields or default) but compiles: state above bit N-1
+        for name in ctx.verdicts['accepted']:
+            d = ctx.by_name.get(name)
+            if d is not None and d['kind'] == 'bitfield' and not d.get('unstructured') and d['base'] not in D.NATIVE \
+                    and name in ctx.dec and not ctx.dec[name][0]:
+                out.append(({'decl': name, 'kind': 'verdict',
+                             'what': 'the declaration addresses or initialises bits at or above the declared width N of its arbitrary-int '
+                                     'base, yet it compiles: the storage integer can hold state above bit N-1'}, True))
     for m in ctx.beh['facts']['mismatches']:
         w = m.get('what', '')
         if (w.startswith('size/alignment') and pid == 'C06') or (w.startswith('debug text') and pid == 'C19') or \
@@ -236,7 +247,12 @@ def collect(ctx, pid):
             kinds = (['get'] if 'r' in f['acc'] else []) + (['with', 'set'] if 'w' in f['acc'] else [])
             if sel and any(sel(d, k, f) for k in kinds):
                 hit = True
-        if sl and any(sl(d, l) for l in ('storage', 'raw_value', 'new_with_raw_value', 'surface:sigs', 'surface:struct')):
+        labels = ['storage', 'raw_value', 'new_with_raw_value', 'surface:sigs', 'surface:struct']
+        if d.get('debug'):
+            labels.append('surface:debug_impl')
+        if d.get('default') is not None:
+            labels.append('surface:consts')
+        if sl and any(sl(d, l) for l in labels):
             hit = True
         if hit:
             out.append({'decl': name, 'label': 'compiles', 'ok': False, 'shape': json.dumps(['compiles', d['base']]),
@@ -423,6 +439,15 @@ def check_property_(pid, tier, seed):
             payload['witness'] = {'what': 'a program that uses the declaration through the API its declaration calls for no longer compiles',
                                   'rustc': api[o['decl']][:3]}
             violations.append((write_replay(pid, payload), ''))
+            continue
+        if pid == 'C18' and o['label'] in ('surface:no_unsafe', 'surface:paths', 'surface:no_other_items', 'enum:surface'):
+            xj = ctx.xl.get(o['decl'], {})
+            payload['witness'] = {'what': 'the expansion of this declaration is the witness: ' + (
+                'it contains the token `unsafe`' if o['label'] == 'surface:no_unsafe' else
+                'it refers to a name outside core / arbitrary_int / the user\'s own names, or emits an unexpected item'),
+                'has_unsafe': xj.get('has_unsafe'), 'dump': 'bitfield.%s.rs / bitenum.%s.rs in the dump directory' % (o['decl'], o['decl'])}
+            violations.append((write_replay(pid, payload), ''))
+            found += 1
             continue
         w = None
         if d['kind'] == 'bitfield' and searched < 40 and (o['decl'], o['label']) not in seen_decl:
